@@ -1,5 +1,6 @@
 """C12 -- writing a model to an EPANET INP file and reading it back preserves it (writer/reader agreement)."""
 import ast
+import copy
 import itertools
 import re
 
@@ -219,6 +220,175 @@ def inverse(classes, w, r):
     return True, ""
 
 
+# ------------------------------------------------------------------ simple controls: whole-function facts
+def inline_table(repo, fn, clsname=None):
+    """callees the abstract execution of fn steps into: the defs nested in fn and (clsname given) the methods of that class that fn
+    calls through self -- so it does not matter whether a sub-computation is written in place, as a closure or as a private method."""
+    tab = {n.name: n for n in ast.walk(fn) if isinstance(n, ast.FunctionDef) and n is not fn}
+    if clsname:
+        meths = {m.name: m for m in repo.cls(IO, clsname).body if isinstance(m, ast.FunctionDef)}
+        for c in ast.walk(fn):
+            if isinstance(c, ast.Call) and isinstance(c.func, ast.Attribute) and isinstance(c.func.value, ast.Name) and c.func.value.id == "self" and meths.get(c.func.attr) not in (None, fn):
+                m = meths[c.func.attr]
+                if any(isinstance(d, ast.Name) and d.id == "staticmethod" for d in m.decorator_list):
+                    tab["self." + m.name] = m
+                    continue
+                cc = copy.copy(m)
+                cc.args = copy.copy(m.args)
+                cc.args.args = list(m.args.args[1:])
+                tab["self." + m.name] = cc
+    return tab
+
+
+def _isinstance_class(t):
+    m = re.search(r"isinstance\(.*,\s*\(?([\w\.]+)\)?\)$", t)
+    return m.group(1).split(".")[-1] if m else None
+
+
+def controls_writer_facts(repo, wctl, vts):
+    """-> (valve type -> set of conversion params (None = unconverted) the writer prints in file column 2 for a `setting` action,
+           node class -> set of params printed in file column 7 (threshold))"""
+    wmap, thr = {}, {}
+    inl = inline_table(repo, wctl, "InpFile")
+    for vt in vts:
+        def ah(base, attr, st, vt=vt):
+            if isinstance(base, Opaque) and attr == "valve_type":
+                return vt
+            if isinstance(base, Opaque) and attr == "_attribute":
+                return "setting"
+            return NotImplemented
+        ex = SymExec(call_hook=make_hook(), attr_hook=ah, inline=inl, test_hook=lambda t, n, s: True if ("isinstance(" in t and _isinstance_class(t) == "Valve") else None)
+        res = set()
+        for o in ex.run(wctl):
+            if o.raised:
+                continue
+            for e in o.events:
+                if e[0] != "format" or not isinstance(e[1], str) or "{" not in e[1]:
+                    continue
+                cols, _ = file_columns(e[1])
+                if not cols:
+                    continue
+                args, kw = e[2]
+                for k, v in [(i, a) for i, a in enumerate(args)] + list(kw.items()):
+                    cs = [c.param for c, _ in find_convs(v)]
+                    if cols.get(k) == 2:
+                        res.add(cs[0] if cs else None)
+                    elif cols.get(k) == 7:
+                        for t, val in o.conds:
+                            if val and "isinstance(" in t and "_source_obj" in t and _isinstance_class(t):
+                                thr.setdefault(_isinstance_class(t), set()).add(cs[0] if cs else None)
+        if not res:
+            raise ExtractError("_write_controls: no line with a value in the setting column (2) found for a %s" % vt)
+        wmap[vt] = res
+    return wmap, thr
+
+
+def controls_reader_facts(repo, rctl, vts):
+    """-> (valve type -> set of params the `setting` of the ControlAction is converted with (None = unconverted),
+           node type -> set of (attribute, param, column) of the conditional control's threshold, {'setting': columns converted})"""
+    rmap, thr, cols = {}, {}, {"setting": set()}
+
+    def th(t, n, s):
+        if re.search(r"'(OPEN|OPENED|CLOSED|ACTIVE)'", t):
+            return False                      # the action is a numeric setting, not a status keyword
+        if "isinstance(" in t and _isinstance_class(t) == "Pump":
+            return False
+        if "isinstance(" in t and _isinstance_class(t) == "Valve":
+            return True
+        return None
+    for vt in vts:
+        def ah(base, attr, st, vt=vt):
+            if isinstance(base, Opaque) and attr == "valve_type":
+                return vt
+            return NotImplemented
+        ex = SymExec(call_hook=make_hook(), attr_hook=ah, test_hook=th, inline=inline_table(repo, rctl))
+        res = set()
+        for o in ex.run(rctl):
+            if o.raised:
+                continue
+            for e in o.events:
+                if e[0] != "call":
+                    continue
+                nm, args, kw = e[2]
+                last = (nm or "").split(".")[-1]
+                if last == "ControlAction" and len(args) >= 3 and args[1] == "setting":
+                    cs = [c for c, _ in find_convs(args[2])]
+                    res.add(cs[0].param if cs else None)
+                    if cs:
+                        cols["setting"].add(cs[0].column())
+                elif last == "_conditional_control" and len(args) >= 4 and isinstance(args[1], str):
+                    cs = [c for c, _ in find_convs(args[3])]
+                    nts = {x for t, v in o.conds if v and "node_type" in t for x in re.findall(r"'(\w+)'", t)}
+                    for nt in nts:
+                        thr.setdefault(nt, set()).add((args[1], cs[0].param if cs else None, cs[0].column() if cs else None))
+        if not res:
+            raise ExtractError("_read_control_line: no ControlAction(..., 'setting', value) found for a %s" % vt)
+        rmap[vt] = res
+    return rmap, thr, cols
+
+
+# ------------------------------------------------------------------ version differential
+def _exec_with(repo, fn, env, test_hook=None, max_paths=40000):
+    ex = SymExec(call_hook=make_hook(), test_hook=test_hook, inline=inline_table(repo, fn, "InpFile"))
+    ex.MAX_PATHS = max_paths
+    e = {a.arg: Opaque(a.arg) for a in fn.args.args}
+    for k in env:
+        if k not in e:
+            raise AnchorError("%s has no parameter %r" % (fn.name, k))
+    e.update(env)
+    return [o for o in ex.block(fn.body, [State(e)]) if not o.raised]
+
+
+def _line_events(repo, o):
+    """(format string, {file column -> value}) of every formatted line on a path"""
+    for e in o.events:
+        if e[0] != "format" or not e[1]:
+            continue
+        fmt = e[1]
+        if "{" not in fmt:
+            fmt = module_string(repo, fmt) or fmt
+        if not isinstance(fmt, str) or "{" not in fmt:
+            continue
+        cols, _ = file_columns(fmt)
+        if cols is None:
+            continue
+        args, kw = e[2]
+        yield fmt, args, {cols[k]: v for k, v in list(enumerate(args)) + list(kw.items()) if k in cols}
+
+
+def option_labels(repo, wo, version):
+    """keywords of the [OPTIONS] lines _write_options can write for the given INP version (first format argument or leading literal of the format)"""
+    labs = set()
+    for o in _exec_with(repo, wo, {"version": version}):
+        for fmt, args, vals in _line_events(repo, o):
+            lab = args[0] if args and isinstance(args[0], str) else None
+            if lab is None:
+                m = re.match(r"\s*([A-Za-z][A-Za-z ]*[A-Za-z])\s", fmt)
+                lab = m.group(1) if m else None
+            if lab and re.fullmatch(r"[A-Za-z][A-Za-z ]*", lab.strip()):
+                labs.add(lab.strip().upper())
+    return labs
+
+
+def tank_lines(repo, wt, version):
+    """[(value in the curve column 7, value in the overflow column 8)] over the paths of _write_tanks for a tank that HAS a volume curve"""
+    def th(t, n, s):
+        m = re.fullmatch(r"(\S*vol_curve(?:_name)?)( is not None| is None)?", t)
+        if m:
+            return m.group(2) != " is None"
+        return None
+    out = []
+    for o in _exec_with(repo, wt, {"version": version}, th):
+        for fmt, args, vals in _line_events(repo, o):
+            if isinstance(vals.get(0), str) and vals[0].lstrip().startswith(";"):
+                continue                                  # column header
+            if 7 in vals:
+                out.append((vals.get(7), vals.get(8)))
+    if not out:
+        raise ExtractError("_write_tanks: no data line with a curve column found (version %s)" % version)
+    return out
+
+
 def run(repo, chk):
     classes = conversion_classes(repo)
     chk.sample({"rule": "R-C12-2", "conversion classes equal to HydParam.Length": sorted(k for k, v in classes.items() if v == classes["HydParam.Length"])})
@@ -380,72 +550,57 @@ def run(repo, chk):
     chk.expect(needs <= set(order_lines), "R-C12-4", "[REACTIONS] every order the reader's conversions depend on is written", loc(wf), found=(sorted(needs), sorted(order_lines)))
 
     # ---------------------------------------------------------------- controls
+    # Whole-function abstract execution of the writer and of the reader (helpers the setting / threshold is computed in -- a nested def,
+    # a method reached through self -- are stepped into); the facts compared are WHERE a converted value lands: the writer's value for
+    # the placeholder in file column 2 / 7 of a [CONTROLS] line, the reader's ControlAction(..., 'setting', v) / threshold argument.
     wctl = repo.func(IO, "InpFile._write_controls")
     rctl = repo.func(IO, "_read_control_line")
     chk.fn(wctl, rctl)
-    gs = [n for n in wctl.body if isinstance(n, ast.FunctionDef) and n.name == "get_setting"]
-    if not gs:
-        raise AnchorError("_write_controls.get_setting vanished")
-    wmap = {}
-    for vt in ("PRV", "PSV", "PBV", "FCV", "TCV"):
-        def ah(base, attr, st, vt=vt):
-            if isinstance(base, Opaque) and attr == "valve_type":
-                return vt
-            if isinstance(base, Opaque) and base.text == "control_action" and attr == "_attribute":
-                return "setting"
-            return NotImplemented
-        ex = SymExec(call_hook=make_hook(), attr_hook=ah, test_hook=lambda t, n, s: True if t.startswith("isinstance(control_action._target_obj, Valve") else None)
-        o = ex.run(gs[0])
-        rets = [x.ret for x in o if not x.raised]
-        wmap[vt] = rets[0].param if rets and isinstance(rets[0], Conv) else None
-    rmap = {}
-    for vt in ("PRV", "PSV", "PBV", "FCV", "TCV"):
-        stmts = [s for s in rctl.body if isinstance(s, ast.If) and "status ==" in unparse(s.test)]
-        if not stmts:
-            raise AnchorError("_read_control_line: status/setting dispatch vanished")
+    VTS = ("PRV", "PSV", "PBV", "FCV", "TCV", "GPV")
+    wmap, th_w = controls_writer_facts(repo, wctl, VTS)
+    rmap, th_r, rcols = controls_reader_facts(repo, rctl, VTS)
 
-        def ah(base, attr, st, vt=vt):
-            if isinstance(base, Opaque) and attr == "valve_type":
-                return vt
-            return NotImplemented
-        ex = SymExec(call_hook=make_hook(), attr_hook=ah, test_hook=lambda t, n, s: (False if t.startswith("status ==") or "isinstance(element, wntr.network.Pump)" in t else (True if "isinstance(element, wntr.network.Valve)" in t else None)))
-        st = State({"current": Opaque("current"), "element": Opaque("element"), "status": Opaque("status"), "flow_units": Opaque("flow_units"), "line": Opaque("line")})
-        o = ex.block(stmts[0].orelse, [st])
-        vals = [x.env.get("setting") for x in o if not x.raised]
-        rmap[vt] = vals[0].param if vals and isinstance(vals[0], Conv) else None
-    for vt in ("PRV", "PSV", "PBV", "FCV", "TCV"):
-        chk.expect(pclass(classes, wmap[vt]) == pclass(classes, rmap[vt]) if (wmap[vt] and rmap[vt]) else wmap[vt] == rmap[vt], "R-C12-2", "[CONTROLS] %s setting: writer and reader use the same unit class" % vt, loc(rctl),
-                   expected="writer %s" % wmap[vt], found="reader %s" % rmap[vt])
+    def pcs(ps):
+        return {pclass(classes, p) if p else None for p in ps}
+    for vt in VTS:
+        chk.expect(len(wmap[vt]) == 1 and len(rmap[vt]) == 1 and pcs(wmap[vt]) == pcs(rmap[vt]), "R-C12-2", "[CONTROLS] %s setting: writer and reader use the same unit class" % vt, loc(rctl),
+                   expected="writer %s" % sorted(map(str, wmap[vt])), found="reader %s" % sorted(map(str, rmap[vt])))
+    chk.expect(rcols["setting"] <= {2}, "R-C12-2", "[CONTROLS] the reader converts the setting it finds in the column the writer prints it in (column 2)", loc(rctl), found=sorted(rcols["setting"], key=str))
     # thresholds
-    src_w = unparse(wctl)
-    src_r = unparse(rctl)
-    th_w = dict(re.findall(r"isinstance\(all_control\._condition\._source_obj, (\w+)\):\s*vals\['thresh'\] = from_si\(self\.flow_units, threshold, (HydParam\.\w+)\)", src_w))
-    th_r = dict(re.findall(r"node\.node_type == '(\w+)':\s*threshold = to_si\(flow_units, float\(current\[7\]\), (HydParam\.\w+)\)", src_r))
     for nt in ("Tank", "Junction"):
-        chk.expect(nt in th_w and nt in th_r and pclass(classes, th_w[nt]) == pclass(classes, th_r[nt]), "R-C12-2", "[CONTROLS] %s threshold: writer and reader use the same unit class (column 7)" % nt, loc(rctl),
-                   expected=th_w.get(nt), found=th_r.get(nt))
-    attr_r = dict(re.findall(r"node\.node_type == '(\w+)':\s*threshold = [^\n]*\n\s*control_obj = Control\._conditional_control\(node, '(\w+)'", src_r))
-    chk.expect(attr_r == {"Junction": "pressure", "Tank": "level"}, "R-C12-2", "[CONTROLS] junction thresholds are pressures, tank thresholds are levels", loc(rctl), found=attr_r)
+        w_, r_ = th_w.get(nt, set()), {p for a_, p, c_ in th_r.get(nt, set())}
+        chk.expect(len(w_) == 1 and len(r_) == 1 and None not in w_ and pcs(w_) == pcs(r_) and {c_ for a_, p, c_ in th_r[nt]} == {7}, "R-C12-2",
+                   "[CONTROLS] %s threshold: writer and reader use the same unit class (column 7)" % nt, loc(rctl),
+                   expected=sorted(map(str, w_)), found=sorted(map(str, th_r.get(nt, set()))))
+    attr_r = {nt: sorted({a_ for a_, p, c_ in v}) for nt, v in th_r.items()}
+    chk.expect(attr_r == {"Junction": ["pressure"], "Tank": ["level"]}, "R-C12-2", "[CONTROLS] junction thresholds are pressures, tank thresholds are levels", loc(rctl), found=attr_r)
     # (the time token of simple time controls is decided by R-C12-8: finite evaluation of writer and reader, any text format accepted)
 
     # ---------------------------------------------------------------- rules: six sibling attribute -> unit maps
     rule = repo.cls(IO, "_EpanetRule")
     meths = repo.methods(rule)
     ATTRS = ["demand", "head", "level", "flow", "pressure", "setting", "status"]
+    RVTS = ("PRV", "PSV", "PBV", "FCV", "TCV", "GPV")
     maps = {}
 
-    def eval_block(fn, stmts, env, attrs_hook_txt):
+    def eval_block(fn, stmts, env, test_hook, sinks):
+        """attribute (and, for `setting`, kind of link / valve type) -> conversion of the value that reaches a sink: the arguments of a
+        `.format` call (writer: sinks=None) or of a constructor call named in `sinks` (reader).  The attribute is injected where the code
+        reads it (the action's / condition's attribute field, the 4th token of a clause), the valve type where it reads valve_type;
+        names of locals, the form of the dispatch and the place of the code (in line / helper) do not matter."""
         out = {}
-        for a in ATTRS:
-            def ah(base, attr, st, a=a):
+        for a, vt in [(a, None) for a in ATTRS if a != "setting"] + [("setting", v) for v in RVTS]:
+            def ah(base, attr, st, a=a, vt=vt):
                 if isinstance(base, Opaque) and attr in ("_source_attr", "_attribute"):
                     return a
+                if isinstance(base, Opaque) and attr == "valve_type" and vt is not None:
+                    return vt
                 return NotImplemented
 
             def ch(name, node, args, kwargs, st, ex, recv, a=a):
                 meth = node.func.attr if isinstance(node.func, ast.Attribute) else None
-                if meth == "lower" and isinstance(recv, Opaque) and recv.text == "words[3]":
-                    return a
+                if meth == "lower" and isinstance(recv, Opaque) and recv.key == 3:
+                    return a                       # clause grammar: CONJ TYPE ID ATTRIBUTE ... -- the 4th token is the attribute
                 if meth == "upper" and isinstance(recv, Opaque):
                     return recv
                 if name and name.endswith("_parse_value"):
@@ -453,41 +608,40 @@ def run(repo, chk):
                 if name and name.endswith("_repr_value"):
                     return Opaque("val_si")
                 return NotImplemented
-            ex = SymExec(call_hook=make_hook(ch), attr_hook=ah, test_hook=attrs_hook_txt)
+            ex = SymExec(call_hook=make_hook(ch), attr_hook=ah, test_hook=test_hook, inline=inline_table(repo, fn))
             st = State(dict(env))
-            res = set()
+            res = out.setdefault(a, set())
             for o in ex.block(stmts, [st]):
                 if o.raised:
                     continue
-                d_, neg = discriminators([(t, v) for t, v in o.conds if "valve_type" in t])
-                d = frozenset(t for c_ in d_ for t in c_)
-                conv = None
+                conv, sunk = None, False
                 for e in o.events:
-                    if e[0] == "format":
+                    if sinks is None and e[0] == "format":
+                        sunk = True
                         for c, p in find_convs(e[2][0]):
                             conv = c
-                v = o.env.get("value")
-                if isinstance(v, Conv):
-                    conv = v
-                isvalve = [vv for t, vv in o.conds if "isinstance(" in t and "Valve" in t]
-                ispump = [vv for t, vv in o.conds if "isinstance(" in t and "Pump" in t and "Valve" not in t]
-                kind = "valve" if (isvalve and isvalve[-1]) else ("pump" if (ispump and ispump[-1]) else "other")
+                    elif sinks is not None and e[0] == "call" and (e[2][0] or "").split(".")[-1] in sinks:
+                        sunk = True
+                        for c, p in find_convs(e[2][1]):
+                            conv = c
+                if not sunk:
+                    continue
+                isvalve = [vv for t, vv in o.conds if "isinstance(" in t and _isinstance_class(t) == "Valve"]
+                ispump = [vv for t, vv in o.conds if "isinstance(" in t and _isinstance_class(t) == "Pump"]
+                kind = vt if (isvalve and isvalve[-1]) else ("pump" if (ispump and ispump[-1]) else "other")
                 if a != "setting":
-                    kind = "-"
-                    d = frozenset()
-                res.add((kind, tuple(sorted(d)), pclass(classes, conv.param) and conv.param.split(".")[-1] if conv else None, conv.direction if conv else None))
-            out[a] = res
+                    kind = ""
+                res.add((kind, pclass(classes, conv.param) and conv.param.split(".")[-1] if conv else None, conv.direction if conv else None))
         return out
 
     def norm_map(m):
-        """collapse to attr -> {(valve types) -> class name}; ignore non-valve kinds without conversion."""
+        """collapse to (attr, kind) -> class name; entries without conversion are left out."""
         out = {}
         for a, res in m.items():
-            for kind, d, p, direction in res:
+            for kind, p, direction in res:
                 if p is None:
                     continue
-                key = (a, d if a == "setting" else ())
-                out[key] = classes_name(p)
+                out[(a, kind)] = classes_name(p)
         return out
 
     def classes_name(p):
@@ -497,53 +651,85 @@ def run(repo, chk):
                 return k
         return p
     # writer blocks
-    for mname, var in (("add_control_condition", "condition"), ("add_action_on_true", "action"), ("add_action_on_false", "action")):
+    def th_w(t, n, s):
+        c = _isinstance_class(t) if "isinstance(" in t else None
+        if c in ("ValueCondition", "ControlAction"):
+            return True
+        if c in ("OrCondition", "AndCondition", "TimeOfDayCondition", "SimTimeCondition"):
+            return False
+        return None
+    for mname in ("add_control_condition", "add_action_on_true", "add_action_on_false"):
         fn = meths[mname]
         chk.fn(fn)
-        th = (lambda t, n, s: (True if ("isinstance(condition, ValueCondition)" in t or "isinstance(action, ControlAction)" in t) else (False if t.startswith("isinstance(condition,") else None)))
-        m = eval_block(fn, fn.body, {"self": Opaque("self"), "condition": Opaque("condition"), "action": Opaque("action"), "prefix": Opaque("prefix")}, th)
+        m = eval_block(fn, fn.body, {a.arg: Opaque(a.arg) for a in fn.args.args}, th_w, None)
         maps["write:" + mname] = norm_map(m)
-        dirs = {x[3] for res in m.values() for x in res if x[3]}
+        dirs = {x[2] for res in m.values() for x in res if x[2]}
         chk.expect(dirs == {"from_si"}, "R-C12-2", "[RULES] %s converts SI values to file units" % mname, loc(fn), found=sorted(dirs))
     gen = meths["generate_control"]
     chk.fn(gen)
-    loops = [n for n in gen.body if isinstance(n, ast.For)]
-    if len(loops) < 4:
-        raise AnchorError("generate_control: expected the if/then/else parse loops")
-    for lp, nm in ((loops[0], "if"), (loops[2], "then"), (loops[3], "else")):
+
+    def clause_block(kind):
+        """the statements generate_control executes once per clause of the given kind (the body of the loop -- or the element of the
+        comprehension -- that iterates over self._<kind>_clauses), with the iteration variable(s)."""
+        key = "_%s_clauses" % kind
+        for n in walk(gen):
+            if isinstance(n, ast.For) and key in unparse(n.iter):
+                return n, n.target, list(n.body)
+        for n in walk(gen):
+            if isinstance(n, (ast.ListComp, ast.GeneratorExp)) and len(n.generators) == 1 and key in unparse(n.generators[0].iter):
+                elt = n.elt
+                # an element that is a call of a sibling method: continue in that method's body
+                if isinstance(elt, ast.Call) and isinstance(elt.func, ast.Attribute) and isinstance(elt.func.value, ast.Name) and elt.func.value.id in ("self", "cls") \
+                        and elt.func.attr in meths and not elt.keywords:
+                    callee = meths[elt.func.attr]
+                    params = [a.arg for a in callee.args.args][1:]
+                    if len(params) == len(elt.args):
+                        pre = [ast.Assign(targets=[ast.Name(id=p_, ctx=ast.Store())], value=a_) for p_, a_ in zip(params, elt.args) if not (isinstance(a_, ast.Name) and a_.id == p_)]
+                        for x in pre:
+                            ast.copy_location(x, elt)
+                            ast.fix_missing_locations(x)
+                        return n, n.generators[0].target, pre + list(callee.body)
+                st_ = ast.Expr(value=elt)
+                ast.copy_location(st_, elt)
+                return n, n.generators[0].target, [st_]
+        raise AnchorError("generate_control: no iteration over self.%s found" % key)
+    for nm, sinks in (("if", ("ValueCondition",)), ("then", ("ControlAction",)), ("else", ("ControlAction",))):
+        lp, tgt, body = clause_block(nm)
         th = (lambda t, n, s: (False if "'SYSTEM'" in t else None))
-        env = {"self": Opaque("self"), "model": Opaque("model"), "words": Opaque("words"), "line": Opaque("line"), "act": Opaque("act"), "condition_list": [], "then_acts": [], "else_acts": []}
-        body = [s for s in lp.body if not (isinstance(s, ast.Assign) and dotted(s.targets[0]) == "words")]
-        m = eval_block(gen, body, env, th)
+        env = {"self": Opaque("self")}
+        for x in ast.walk(tgt):
+            if isinstance(x, ast.Name):
+                env[x.id] = Opaque(x.id)
+        m = eval_block(gen, body, env, th, sinks)
         maps["read:" + nm] = norm_map(m)
-        dirs = {x[3] for res in m.values() for x in res if x[3]}
+        dirs = {x[2] for res in m.values() for x in res if x[2]}
         chk.expect(dirs == {"to_si"}, "R-C12-2", "[RULES] generate_control (%s clauses) converts file units to SI" % nm, loc(gen, lp), found=sorted(dirs))
     ref_name, ref = sorted(maps.items())[0]
     for name, mp in sorted(maps.items()):
         chk.expect(mp == ref, "R-C12-2", "[RULES] %s uses the same attribute -> unit map as %s" % (name, ref_name), loc(IO, rule),
                    "the six sibling blocks that print and parse rule thresholds/settings must agree on which attribute carries which unit (else a rule's value changes on a round trip)",
                    expected=sorted((str(k), v) for k, v in ref.items()), found=sorted((str(k), v) for k, v in mp.items()))
-    want_keys = {("demand", ()), ("head", ()), ("level", ()), ("flow", ()), ("pressure", ()), ("setting", ("PBV", "PRV", "PSV")), ("setting", ("FCV",))}
+    want_keys = {("demand", ""), ("head", ""), ("level", ""), ("flow", ""), ("pressure", ""), ("setting", "PRV"), ("setting", "PSV"), ("setting", "PBV"), ("setting", "FCV")}
     chk.expect(set(ref) == want_keys, "R-C12-2", "[RULES] the unit map covers demand, head, level, flow, pressure and valve settings (PRV/PSV/PBV pressure, FCV flow)", loc(IO, rule), found=sorted(map(str, ref)))
     chk.sample({"rule": "R-C12-2", "rules attribute->unit map": {str(k): v for k, v in ref.items()}})
 
-    # ---------------------------------------------------------------- R-C12-6 version 2.0 guards
+    # ---------------------------------------------------------------- R-C12-6 version 2.0 (differential: the writer is executed abstractly for version=2.0 and =2.2)
     wo = repo.func(IO, "InpFile._write_options")
-    guarded = set()
-    for n in walk(wo):
-        if isinstance(n, ast.If) and "version" in unparse(n.test):
-            for c in calls(n, attr="format"):
-                if c.args and isinstance(const(c.args[0]), str) and re.fullmatch(r"[A-Z][A-Z ]*[A-Z]", const(c.args[0])):
-                    guarded.add(const(c.args[0]))
-                fs = c.func.value
-                if isinstance(fs, ast.Constant) and isinstance(fs.value, str):
-                    m = re.match(r"\s*([A-Z][A-Z ]*[A-Z])\s\s", fs.value)
-                    if m:
-                        guarded.add(m.group(1))
-    want_g = {"HEADERROR", "FLOWCHANGE", "DEMAND MODEL", "MINIMUM PRESSURE", "REQUIRED PRESSURE", "PRESSURE EXPONENT"}
-    chk.expect(want_g <= guarded and not (guarded - want_g), "R-C12-6", "only the EPANET 2.2-specific options are omitted from 2.0-format files", loc(wo), expected=sorted(want_g), found=sorted(guarded))
     wt = repo.func(IO, "InpFile._write_tanks")
-    chk.expect("if version == 2.2:" in unparse(wt) and "E['overflow'] = 'YES'" in unparse(wt), "R-C12-6", "the tank overflow column is written for 2.2 only", loc(wt))
+    chk.fn(wo, wt)
+    lab20, lab22 = option_labels(repo, wo, 2.0), option_labels(repo, wo, 2.2)
+    want_g = {"HEADERROR", "FLOWCHANGE", "DEMAND MODEL", "MINIMUM PRESSURE", "REQUIRED PRESSURE", "PRESSURE EXPONENT"}
+    chk.expect(lab22 - lab20 == want_g and lab20 <= lab22 and len(lab20) >= 10, "R-C12-6", "only the EPANET 2.2-specific options are omitted from 2.0-format files", loc(wo),
+               expected=sorted(want_g), found="2.2 only: %s; 2.0 only: %s" % (sorted(lab22 - lab20), sorted(lab20 - lab22)))
+    tl20, tl22 = tank_lines(repo, wt, 2.0), tank_lines(repo, wt, 2.2)
+    chk.expect(all(o in ("", None) for c_, o in tl20) and any(o not in ("", None) for c_, o in tl22), "R-C12-6", "the tank overflow column is written for 2.2 only", loc(wt),
+               found="overflow column: 2.0 %s, 2.2 %s" % (sorted({str(o) for c_, o in tl20}), sorted({str(o) for c_, o in tl22})))
+    # R-C12-12: whatever else the line carries, a tank that has a volume curve is written with that curve's name (the reader maps any other token to "no curve")
+    for ver, tl in ((2.0, tl20), (2.2, tl22)):
+        wrong = [c_ for c_, o in tl if not (isinstance(c_, Opaque) and "vol_curve" in c_.text)]
+        chk.expect(not wrong, "R-C12-12", "[TANKS] a tank that has a volume curve is written with the curve's name in the curve column (format %s)" % ver, loc(wt),
+                   "the curve column of a tank with a volume curve must carry the curve name on every path; a placeholder there makes the tank cylindrical on read",
+                   expected="<tank>.vol_curve.name", found=[str(x) for x in wrong[:3]])
 
     # ---------------------------------------------------------------- R-C12-5 pressure options
     ro = repo.func(IO, "InpFile._read_options")
@@ -555,28 +741,34 @@ def run(repo, chk):
     # ---------------------------------------------------------------- R-C12-7 time helpers
     s2s = repo.func(IO, "_sec_to_string")
     t2s = repo.func(IO, "_str_time_to_sec")
-    src = unparse(s2s)
-    chk.expect("int(sec / 3600.0)" in src.replace("3600.", "3600.0").replace("3600.00", "3600.0") or "sec / 3600" in src, "R-C12-7", "_sec_to_string splits seconds into hours, minutes, seconds", loc(s2s))
-    weights = sorted(set(re.findall(r"groups\(\)\[(\d)\]\) \* (60 \* 60|60)\b", unparse(t2s))))
-    chk.expect(("0", "60 * 60") in weights and ("1", "60") in weights, "R-C12-7", "_str_time_to_sec weighs hours by 3600 and minutes by 60", loc(t2s), found=weights)
-    # exact inverse on the token level: partial evaluation of _sec_to_string's arithmetic for sample seconds
-    import math
+    chk.fn(s2s, t2s)
+    # finite evaluation of both helpers (stdlib str / re calls modelled, nothing from the repository runs): any way of writing the
+    # arithmetic is accepted, only the values count
+    from ._shared import _string_evaluator
+    from ..peval import Raised
+    SEv, shook = _string_evaluator(repo)
 
-    def hk(name, n, ev):
-        if name == "int":
-            return int(ev.ev(n.args[0]))
-        return NotImplemented
-    okinv = True
+    def call_fn(fn, *vals):
+        try:
+            return SEv({a.arg: v for a, v in zip(fn.args.args, vals)}, None, shook).run(fn.body)
+        except Raised:
+            return "raises"
+        except Unknown as ex_:
+            raise ExtractError("%s not evaluable: %s" % (fn.name, ex_))
     bad = None
     for sec in (0, 59, 60, 3599, 3600, 3661, 43200, 86399, 90061, 360000):
-        try:
-            e = Evaluator({"sec": sec}, None, hk)
-            r = e.run(s2s.body)
-            if not (isinstance(r, list) and len(r) == 3 and r[0] * 3600 + r[1] * 60 + r[2] == sec and 0 <= r[1] < 60 and 0 <= r[2] < 60):
-                okinv, bad = False, (sec, r)
-        except Unknown as ex_:
-            okinv, bad = False, (sec, str(ex_))
-    chk.expect(okinv, "R-C12-7", "_sec_to_string(sec) = (h, m, s) with h*3600 + m*60 + s = sec and 0 <= m, s < 60", loc(s2s), found=bad)
+        r = call_fn(s2s, sec)
+        if not (isinstance(r, (list, tuple)) and len(r) == 3 and all(isinstance(x, int) for x in r) and r[0] * 3600 + r[1] * 60 + r[2] == sec and 0 <= r[1] < 60 and 0 <= r[2] < 60):
+            bad = bad or (sec, r)
+    chk.expect(bad is None, "R-C12-7", "_sec_to_string(sec) = (h, m, s) with h*3600 + m*60 + s = sec and 0 <= m, s < 60", loc(s2s), found=bad)
+    bad = None
+    for h, m_, s_ in ((0, 0, 0), (0, 0, 59), (0, 59, 0), (1, 1, 1), (9, 30, 0), (12, 0, 0), (23, 59, 59), (25, 1, 1), (100, 0, 0)):
+        for txt, want in (("%d:%02d:%02d" % (h, m_, s_), h * 3600 + m_ * 60 + s_), ("%d:%02d" % (h, m_), h * 3600 + m_ * 60), ("%d" % h, h * 3600)):
+            back = call_fn(t2s, txt)
+            if back != want:
+                bad = bad or (txt, back, want)
+    chk.expect(bad is None, "R-C12-7", "_str_time_to_sec weighs hours by 3600 and minutes by 60 (HH:MM:SS, HH:MM, HH)", loc(t2s),
+               expected=bad[2] if bad else None, found=("%r reads as %s" % (bad[0], bad[1])) if bad else None)
     # simple time controls: the token written for `AT TIME t` reads back as t for every whole second
     from ._shared import control_time_round_trip, rule_clock_round_trip
     rows_, wcf, rcf = control_time_round_trip(repo)
